@@ -277,6 +277,22 @@ func HarnessC14Run(a []int) {
 		verifAssert("C14.run.lost_next_to_busy", c14Equal(ids, []int{0, 1, 0, 1}))
 		shutdown()
 		verifQuiesce()
+	case 5: // a lost indication that resolves to nothing (empty history, or a count of zero), traffic,
+		// then a lost indication that counts: the second one is served like the first on a fresh client
+		in <- &knxnet.RoutingLost{Count: uint16(nondetChoice(3))}
+		verifSleep(int64(time.Second))
+		sender(0, 1)
+		in <- &knxnet.RoutingLost{Count: 0}
+		verifSleep(int64(time.Second))
+		in <- &knxnet.RoutingLost{Count: 2}
+		in <- &knxnet.RoutingInd{Payload: x1}
+		in <- &knxnet.RoutingInd{Payload: x2}
+		verifSleep(int64(time.Second))
+		verifQuiesce()
+		ids, _ := routerSent()
+		verifAssert("C14.run.lost_after_empty_lost", c14Equal(ids, []int{0, 1, 0, 1}))
+		shutdown()
+		verifQuiesce()
 	case 3: // Close while telegrams are parked; the reader arrives only afterwards: its range loop must end
 		in <- &knxnet.RoutingInd{Payload: x1}
 		in <- &knxnet.RoutingInd{Payload: x2}
